@@ -78,9 +78,14 @@ def main():
                 viol = [ln for ln in c.stdout.splitlines() if ln.startswith("VIOLATION")]
                 detail = [ln for ln in c.stdout.splitlines() if ln.startswith("  monitor=")]
                 ok = c.returncode == 1 and viol
-                print("%-55s %s %s  %s" % (name, prop, "CAUGHT" if ok else "MISSED (exit %d)" % c.returncode,
-                                           detail[0].strip()[:150] if detail else ""))
-                rows.append((name, prop, "caught" if ok else "MISSED", (detail[0].strip()[:110] if detail else ""),
+                import re
+
+                total = sum(int(m) for ln in detail for m in re.findall(r"\((\d+) recorded\)", ln))
+                total += sum(int(m) for m in re.findall(r"violations_not_recorded=(\d+)", c.stdout))
+                print("%-55s %s %s  [%d violating cases, %d kinds] %s" % (
+                    name, prop, "CAUGHT" if ok else "MISSED (exit %d)" % c.returncode, total, len(detail),
+                    detail[0].strip()[:150] if detail else ""))
+                rows.append((name, prop, ("caught (%d cases)" % total) if ok else "MISSED", (detail[0].strip()[:110] if detail else ""),
                              locals().get("tail", "") if args.with_tests else ""))
                 if not ok:
                     failed.append("%s/%s" % (name, prop))
